@@ -41,6 +41,13 @@ PROPS["C06"] = {
             "zero attack/release included); heavy-tailed random framings (frame sizes log-uniform in 1..4096 granules + sizes around the memory length) of "
             "streams of 5e3..1e5 samples, 3 (quick) / 10 (thorough) parameter draws per processor x 2..3 framings; 68 / 148 groups of 2..4 separately "
             "constructed instances (same type different parameters, mixed types, same parameters different data) used in random interleaving. "
+            "Strengthening classes (round 2), for every processor class: COPIES (copy-construction, copy-assignment over a live object, element of "
+            "std::vector<P>(2, obj), by value + move, a destroyed copy; from a fresh prototype or mid-stream; 2 / 8 draws per class, 4 copies each) used "
+            "interleaved with their source -- each copy bit-identical to a separately constructed object after the same prefix, the source unaffected "
+            "(key C06:<proc>:copy); frames of 20000, 70000 and 140000 samples after shorter ones on the same object (thorough: 2^14..2^17 (+1), 49152 k, "
+            "decreasing orders; 3 / 7 of them also through the model with a 20000-sample frame); inputs and FIR / FFT / multirate coefficient vectors at "
+            "the absolute scales {1e-300, 1e-17, 2^-60, 1e-8, 1, 1e8, 2^60, 1e100} and inputs with runs of +0 / -0 longer than the memory; rejected calls "
+            "(frame not a multiple of decim_rate(), len(x) != len(d)) between the frames of decimating converters and adaptive filters (key C06:<proc>:failed-call). "
             "inputs: gaussian segments of varying scale, silences, plateaus, impulses, quantised values (median ties), level steps -70..+10 dB (dynamics), "
             "desired = short FIR of the input + noise (adaptive). distinct = distinct (processor, parameters, input, framing) comparisons; non-trivial = all",
     "technique": "Lean 4 structural proofs (generic framing theorem by induction on the partition + per-processor split laws over arbitrary sample types) over "
